@@ -28,7 +28,7 @@ def generate(ctx):
         conn = CONNS[i % 4]
         syn = SYNS[(i // 4) % 4]
         dt = rng.choice([1.0, 0.5, 1.3])
-        K = rng.choice([1, 3, 5])
+        K = rng.choice([1, 3, 5, 5, 6, 7, 12])
         mode = rng.choice(["ongrid", "ongrid", "mixed", "zero", "homogeneous"])
         events = []
         T = 3 * K + 10
@@ -40,7 +40,10 @@ def generate(ctx):
                 events.append("reassign")
             else:
                 events.append("step")
-        yield {"conn": conn, "syn": syn, "dt": dt, "K": K, "tol": rng.choice([0.0, 1e-3]), "mode": mode,
+        # k * 1.3 / 1.3 is not always exactly k in floating point (6, 11, 12, 14 ...): with a zero tolerance such a delay is
+        # legitimately read as off the grid, so the longer delays at that step time always carry a tolerance
+        tol = 1e-3 if (K > 5 and dt == 1.3) else rng.choice([0.0, 1e-3])
+        yield {"conn": conn, "syn": syn, "dt": dt, "K": K, "tol": tol, "mode": mode,
                "interp": rng.choice(["previous", "nearest"]), "B": rng.randint(1, 3), "bias": rng.random() < 0.4,
                "dtype": rng.choice(["float64", "float64", "float32"]), "p": rng.choice([0.2, 0.5, 0.8]),
                "seed": rng.randrange(1 << 30), "events": events,
